@@ -58,6 +58,12 @@ struct InnerHeap {
 
 impl InnerHeap {
     unsafe fn grow(&mut self) -> bool {
+        // verification fault-injection point: a denied grow behaves like a failed allocation
+        #[cfg(feature = "verif")]
+        if !verif_take_grow_permit() {
+            return false;
+        }
+
         let new_cap = if self.byte_cap == 0 {
             256 * 256 * 8
         } else {
@@ -1214,4 +1220,91 @@ pub(crate) fn to_local_code_ptr(heap: &Heap, addr: HeapCellValue) -> Option<usiz
             None
         }
     )
+}
+
+// ---------------------------------------------------------------------------------------------
+// Verification hooks (cargo feature `verif`): add-only accessors for the out-of-tree checks of the
+// heap capacity discipline. Nothing here is compiled without the feature.
+
+#[cfg(feature = "verif")]
+thread_local! {
+    static VERIF_GROW_BUDGET: std::cell::Cell<Option<usize>> = const { std::cell::Cell::new(None) };
+}
+
+/// Number of further `InnerHeap::grow` calls on this thread that are allowed to reach the
+/// allocator (`None` = unlimited). A denied grow returns `false` like a failed allocation.
+#[cfg(feature = "verif")]
+pub(crate) fn verif_set_grow_budget(budget: Option<usize>) {
+    VERIF_GROW_BUDGET.with(|c| c.set(budget));
+}
+
+#[cfg(feature = "verif")]
+fn verif_take_grow_permit() -> bool {
+    VERIF_GROW_BUDGET.with(|c| match c.get() {
+        None => true,
+        Some(0) => false,
+        Some(n) => {
+            c.set(Some(n - 1));
+            true
+        }
+    })
+}
+
+#[cfg(feature = "verif")]
+const VERIF_GUARD_BYTE: u8 = 0xA5;
+
+#[cfg(feature = "verif")]
+impl Heap {
+    /// `(byte_len, byte_cap)`.
+    pub(crate) fn verif_len_cap(&self) -> (usize, usize) {
+        (self.inner.byte_len, self.inner.byte_cap)
+    }
+
+    /// One call of the private `grow`.
+    pub(crate) fn verif_grow(&mut self) -> bool {
+        unsafe { self.grow() }
+    }
+
+    /// Extends the allocation by `guard` bytes beyond `byte_cap` (which is left unchanged) and
+    /// fills them with a pattern. Only valid while grows are denied (the allocation size no
+    /// longer equals `byte_cap`); undo with `verif_guard_remove` before any grow or drop.
+    pub(crate) fn verif_guard_install(&mut self, guard: usize) -> bool {
+        if self.inner.ptr.is_null() || self.inner.byte_cap == 0 {
+            return false;
+        }
+        unsafe {
+            let old = alloc::Layout::from_size_align(self.inner.byte_cap, size_of::<HeapCellValue>())
+                .unwrap();
+            let p = alloc::realloc(self.inner.ptr, old, self.inner.byte_cap + guard);
+            if p.is_null() {
+                return false;
+            }
+            self.inner.ptr = p;
+            ptr::write_bytes(p.add(self.inner.byte_cap), VERIF_GUARD_BYTE, guard);
+        }
+        true
+    }
+
+    /// Are the `guard` bytes after `byte_cap` still untouched?
+    pub(crate) fn verif_guard_intact(&self, guard: usize) -> bool {
+        unsafe {
+            std::slice::from_raw_parts(self.inner.ptr.add(self.inner.byte_cap), guard)
+                .iter()
+                .all(|b| *b == VERIF_GUARD_BYTE)
+        }
+    }
+
+    /// Shrinks the allocation back to exactly `byte_cap` bytes.
+    pub(crate) fn verif_guard_remove(&mut self, guard: usize) {
+        unsafe {
+            let old = alloc::Layout::from_size_align(
+                self.inner.byte_cap + guard,
+                size_of::<HeapCellValue>(),
+            )
+            .unwrap();
+            let p = alloc::realloc(self.inner.ptr, old, self.inner.byte_cap);
+            assert!(!p.is_null());
+            self.inner.ptr = p;
+        }
+    }
 }
